@@ -142,7 +142,7 @@ func main() {
 	// 2. generated histories on real repositories and real index directories
 	tPhase := time.Now()
 	rounds := f.N(3, 4)
-	l1sync.Parallel(f.N(20, 200), f.N(4, 6), func(i int) []gen.Case { return runScenario(f.Seed, i, rounds) }, w)
+	l1sync.Parallel(f.N(20, 120), f.N(4, 8), func(i int) []gen.Case { return runScenario(f.Seed, i, rounds) }, w)
 
 	// 3. planPrune alone on synthetic inventories
 	l1sync.Phase("scenarios", tPhase)
